@@ -294,7 +294,7 @@ class Contract:
                  yield_checks=None, cases=None, result=None, callees=(), name=None, setup=None, replay=None,
                  replay_args=None, assumptions=(), self_obj=None, timeout_ms=None, crosscheck=None,
                  call_raises_exact=False, exit_checks=None, frame_locals=False, pre_state=None,
-                 replay_ensures=None, bounded=None, tiers=None, max_paths=4000, block=None):
+                 replay_ensures=None, bounded=None, tiers=None, max_paths=4000, block=None, harness=None):
         self.prop = prop
         self.target = target
         self.relpath, self.qualname = target.split('::')
@@ -321,6 +321,7 @@ class Contract:
         # clauses evaluated only natively during replay (computable restatements of per-iteration obligations)
         self.replay_ensures = dict(replay_ensures or {})
         self.tiers = tiers
+        self.harness = harness  # python source (in /verif) driving real functions/classes of the target module
         self.block = block      # fn(FunctionDef) -> list of statements: verify a block inside a large function
         self.max_paths = max_paths
         self.bounded = bounded     # text of the bound when this unit is a bounded stand-in (not counted as proved)
@@ -410,7 +411,17 @@ class Verifier:
         loader = eng.loader
         if c.setup:
             c.setup(eng)
-        fref = loader.funcref(c.relpath, c.qualname)
+        if c.harness:
+            mod_ = loader.module_by_relpath(c.relpath)
+            for nm in c.qualname.split(','):
+                if nm in mod_.classes:
+                    loader.classref(c.relpath, nm)
+                else:
+                    loader.find(c.relpath, nm)
+            hnode = ast.parse('def __harness__():\n' + '\n'.join('    ' + l for l in c.harness.strip('\n').split('\n')))
+            fref = E.FuncRef(mod_, hnode.body[0], mod_.dotted + '.<harness %s>' % c.name)
+        else:
+            fref = loader.funcref(c.relpath, c.qualname)
         loader.register_exceptions(eng, c.relpath)
         loop_ids = {}
         for n in ast.walk(fref.node):
@@ -453,7 +464,9 @@ class Verifier:
                 params_entry = {k: snapshot_value(v) for k, v in params.items()}
                 a_ = fref.node.args
                 fn_params = {x.arg for x in a_.posonlyargs + a_.args + a_.kwonlyargs}
-                if c.block:
+                if c.harness:
+                    env = dict(params)
+                elif c.block:
                     env = {k: v for k, v in params.items() if k in fn_params}
                 else:
                     env = eng.bind_args(fref.node, [], {k: v for k, v in params.items() if k in fn_params}, None,
@@ -667,8 +680,23 @@ def import_real(relpath, qualname):
 def call_real(c, inputs):
     """Run the real function of contract c on concrete inputs. -> ('return', value) | ('raise', name, msg)"""
     import types
-    fn = import_real(c.relpath, c.qualname)
     names = list(c.params.keys())
+    if c.harness:
+        # the harness text drives the real module: compile it as a function inside the real module's namespace
+        if REPO not in sys.path:
+            sys.path.insert(0, REPO)
+        mod = importlib.import_module(c.relpath[:-3].replace('/', '.'))
+        src = 'def __harness__(%s):\n' % ', '.join(names) + '\n'.join('    ' + l for l in c.harness.strip('\n').split('\n'))
+        g = dict(mod.__dict__)
+        exec(compile(src, '<harness %s>' % c.name, 'exec'), g)
+        try:
+            r = g['__harness__'](*[native_arg(inputs[n]) for n in names])
+            if isinstance(r, types.GeneratorType):
+                r = list(r)
+            return ('return', r)
+        except Exception as e:   # noqa
+            return ('raise', type(e).__name__, str(e))
+    fn = import_real(c.relpath, c.qualname)
     if c.replay_args is not None:
         args, kwargs = c.replay_args(inputs)
     else:
@@ -761,7 +789,7 @@ def replay_counterexample(c, ob_rec, _alt=False):
         except Exception as e:
             return {'status': 'no-input', 'note': 'custom replay failed: %s' % e, 'trace': traceback.format_exc(),
                     'inputs': jsonable(inputs)}
-    if c.setup is not None:
+    if c.setup is not None and not c.harness:
         return {'status': 'no-input', 'inputs': jsonable(inputs),
                 'note': 'contract stubs externals and defines no replay harness: counter-model reported without a real run'}
     try:
